@@ -257,6 +257,19 @@ impl Value {
 
     pub fn checked_sub(&self, rhs_value: &Value) -> Result<Value, JsError> {
         let coin = self.coin.checked_sub(&rhs_value.coin)?;
+        // like the coin, every asset quantity must not underflow (use clamped_sub to saturate)
+        if let Some(rhs_ma) = &rhs_value.multiasset {
+            for (policy, assets) in &rhs_ma.0 {
+                for (asset_name, amount) in &assets.0 {
+                    let current = self
+                        .multiasset
+                        .as_ref()
+                        .map(|ma| ma.get_asset(policy, asset_name))
+                        .unwrap_or(BigNum::zero());
+                    current.checked_sub(amount)?;
+                }
+            }
+        }
         let multiasset = match (&self.multiasset, &rhs_value.multiasset) {
             (Some(lhs_ma), Some(rhs_ma)) => match lhs_ma.sub(rhs_ma).len() {
                 0 => None,
